@@ -24,7 +24,12 @@ ALLOWED_AXIOMS = {"propext", "Classical.choice", "Quot.sound"}
 FORBIDDEN = re.compile(r"\b(sorry|admit|native_decide|bv_decide|implemented_by|unsafe)\b|^axiom\s|maxHeartbeats 0")
 
 sys.path.insert(0, os.path.join(VERIF, "tools"))
-from props import PROPS  # noqa: E402
+import genreg  # noqa: E402
+
+
+def load_props(prop):
+    with open(os.path.join(VERIF, "tools", "props", prop + ".json")) as f:
+        return json.load(f)
 
 
 def sh(cmd, cwd=None, env=None, timeout=None, stdin=None):
@@ -197,7 +202,8 @@ def write_replay(prop, seed, payload):
 
 def run_check(prop, tier, seed):
     t0 = time.time()
-    cfg = PROPS[prop]
+    cfg = load_props(prop)
+    genreg.main()
     os.makedirs(WORK, exist_ok=True)
     os.makedirs(os.path.join(VERIF, "evidence"), exist_ok=True)
     violations = []      # (kind, description, replay payload)
@@ -462,6 +468,7 @@ def replay(path):
     if not ops:
         print("replay names broken obligations only (no failing input was found)")
         return 0
+    genreg.main()
     regenerate()
     lake_build(["tfm"])
     cargo_build()
